@@ -89,7 +89,7 @@ def make_world(r, etype=None):
         # geometry: alternative END with the flank downstream (A5SS on +, A3SS on -), or
         #           alternative START with the flank upstream  (A5SS on -, A3SS on +)
         alt_end = (etype == 'A5SS') == (strand == 1)
-        a = r.randrange(0, n - 1); c = a + 1 if r.random() < 0.8 else r.randrange(a + 1, n)
+        a = r.randrange(0, n - 1); c = min(n - 1, a + r.choice([1, 1, 1, 2, 3, 3, 4]))
         d = r.randrange(1, 4)
         if alt_end:
             long, short, flank = slots[a], shift_end(slots[a], d), slots[c]
@@ -157,6 +157,8 @@ def make_world(r, etype=None):
         chosen += others[:2]
     elif r.random() < 0.4:
         chosen += [x for x in others if x not in ('inc', 'skip', 'inc_shifted_outer', 'skip_shifted_outer')][:2]
+    if 'with_interjacent' in isos and 'with_interjacent' not in chosen and r.random() < 0.7:
+        chosen.append('with_interjacent')
     layouts, seen = [], set()
     for nm in chosen:
         ex = sorted(isos[nm])
@@ -276,6 +278,11 @@ def check_c16(tier):
         if 'info_validated' in vs:
             stats[f'validated_{t}_strand{c["gene"]["strand"]}'] = stats.get(f'validated_{t}_strand{c["gene"]["strand"]}', 0) + 1
         bad = sorted(v for v in vs if v != 'done' and not v.startswith('info_'))
+        if 'form_already_annotated_interjacent' in bad:
+            bad.remove('form_already_annotated_interjacent')
+            rep.violation('annotated_form_emitted_for_interjacent_layout',
+                          f"parseRMATS {t} event on layouts {ctx['layouts']}: a record on a transcript carrying a form only up to interjacent "
+                          f"exons produces a form an isoform already has; records: {lines}", dict(ctx, records=lines))
         if bad:
             rep.violation(f"rmats:{t}:{key}:{','.join(bad)}",
                           f"parseRMATS {t} event on layouts {ctx['layouts']} (strand {c['gene']['strand']}) violates {bad}; "
